@@ -36,6 +36,35 @@ def gen_ops(rng, m, nops):
     return ops
 
 
+def full_copy_stage(chk, tier, seed):
+    """copies of solver-made solutions on full-feature models (cluster objective, groups, alternates, no-mix, multipliers,
+    windows ...): objective terms re-evaluated on both, scores, per-stop values, best-move values, the same un-plan on both
+    (harness/copycheck.go)"""
+    import crash_runs as CR
+    import gen_full as GF
+    rng = random.Random(seed * 31 + 1111)
+    n = 150 if tier == "quick" else 3000
+    blocks, meta = [], {}
+    for i in range(n):
+        inp, opts, feats = GF.gen_full(rng, "small" if i % 3 else "medium")
+        if i % 2 == 0:
+            opts["objectives"]["cluster"] = rng.choice([1.0, 10.0])       # per-stop objective data that Copy has to carry over
+        meta[str(i)] = (inp, opts)
+        blocks.append((str(i), GF.case_lines(inp, opts, {"iterations": 40, "duration_ms": 1500, "runs": 1, "starts": 1, "output": 0, "copycheck": 1})))
+    res = CR.run_crash(blocks, "c11_copy_" + tier, timeout=3000)
+    checked = nd = 0
+    for cid, r in res.items():
+        if r.get("copychecked"):
+            checked += 1
+        if r.get("copydiff"):
+            nd += 1
+            inp, opts = meta[cid]
+            chk.violation({"kind": "input", "what": "copy differs from its original: " + r["copydiff"][0][:300], "differences": r["copydiff"][:8],
+                           "input": inp, "options": opts, "how": "harness crash copycheck=1"})
+    chk.ob("copies of solver-made solutions on %d full-feature models show the same as their originals" % checked, nd == 0)
+    chk.ev.cov["full_feature_copies_checked"] = checked
+
+
 def run(tier, seed, replay=None):
     chk = FW.Check(PID, tier, seed)
     if not chk.builds(model=True, harness=True, skeletons=True):
@@ -111,6 +140,7 @@ def run(tier, seed, replay=None):
                         chk.violation({"kind": "history", "what": "solution %d changed although no operation targeted it" % j,
                                        "case": G.case_lines(r["case"]["model"], r["case"]["ops"])})
             prev = s_
+    full_copy_stage(chk, tier, seed)
     chk.ob("a copy equals its original when taken (incl. cached slack) and untouched solutions keep their snapshot (oracle on the implementation's output)", viol == 0)
     chk.ev.cov.update({
         "evaluations": n, "distinct_nontrivial": sum(1 for c in cases if "op copy" in c["ops"]),
